@@ -75,7 +75,12 @@ def case_strategy():
         # make sure required fields get a value in most cases (through the object / config channel)
         fill = draw(st.integers(0, 4)) > 0
         req = [[f[0], draw(T[f[1]][1])] for f in fields if not f[2] and f[1] not in OPTIONAL_KINDS] if fill else []
-        return {"fields": fields, "items": items, "required_values": req}
+        case = {"fields": fields, "items": items, "required_values": req}
+        if all(f[2] for f in fields) and draw(st.integers(0, 2)) == 0:
+            # the defaults of the group come from a default *instance* (dataclass / class styles) = per-leaf defaults (dotted / inner styles);
+            # an override may be None where the type allows it
+            case["override"] = {f[0]: draw(T[f[1]][1]) for f in fields if draw(st.booleans())}
+        return case
 
     return st.composite(lambda draw: build(draw))()
 
@@ -83,13 +88,16 @@ def case_strategy():
 _COUNT = [0]
 
 
-def build_all(fields):
+def build_all(fields, override=None):
     from jsonargparse import ActionParser, ArgumentParser
+
+    override = override or {}
 
     T = types_table()
     _COUNT[0] += 1
     n_ = _COUNT[0]
     out = {}
+    tm = {f[0]: f[1] for f in fields}
 
     def mk():
         p = ArgumentParser(exit_on_error=False, prog="app", env_prefix="APP", default_env=False)
@@ -98,6 +106,8 @@ def build_all(fields):
 
     def leaf_kwargs(f):
         name, t, hasd, dflt = f
+        if name in override:
+            return {"type": T[t][0], "default": conv(t, override[name])}
         if hasd:
             return {"type": T[t][0], "default": conv(t, dflt)}
         if t in OPTIONAL_KINDS:
@@ -119,7 +129,10 @@ def build_all(fields):
     DC.__module__ = __name__
     globals()[DC.__name__] = DC
     p = mk()
-    p.add_argument("--g", type=DC)
+    if override:
+        p.add_argument("--g", type=DC, default=DC(**{n: conv(tm[n], v) for n, v in override.items()}))
+    else:
+        p.add_argument("--g", type=DC)
     out["dataclass"] = p
 
     params = ", ".join(f"{name}: T_{name}" + (f" = D_{name}" if hasd else "") for name, t, hasd, _d in fields)
@@ -130,7 +143,10 @@ def build_all(fields):
     K.__module__ = __name__
     globals()[K.__name__] = K
     p = mk()
-    p.add_class_arguments(K, "g")
+    if override:
+        p.add_class_arguments(K, "g", default={n: conv(tm[n], v) for n, v in override.items()})
+    else:
+        p.add_class_arguments(K, "g")
     out["class"] = p
 
     inner = ArgumentParser(exit_on_error=False)
@@ -208,7 +224,7 @@ def run_case(ctx, case):
     import warnings
 
     warnings.simplefilter("ignore")
-    parsers = build_all(case["fields"])
+    parsers = build_all(case["fields"], case.get("override"))
     results = {s: run_style(case, p, s) for s, p in parsers.items()}
     ref_style = "dataclass"
     ref = results[ref_style]
